@@ -1,0 +1,123 @@
+//go:build verif
+
+package hh
+
+import (
+	"time"
+
+	"github.com/influxdata/influxdb/models"
+)
+
+// Thin exported wrappers over the unexported hinted-handoff queue for the /verif
+// correspondence harness. No behaviour of their own.
+
+// VerifDefaultSegmentSize is the segment size limit used by WriteShard and newQueue.
+const VerifDefaultSegmentSize = defaultSegmentSize
+
+// VerifQueue wraps the unexported queue.
+type VerifQueue struct{ q *queue }
+
+// VerifSegState is a snapshot of the in-memory fields of one segment.
+type VerifSegState struct {
+	ID          uint64
+	Pos         int64
+	CurrentSize int64
+	Size        int64
+	MaxSize     int64
+	BufLen      int
+	Cursor      int64 // OS file cursor; -1 when the file is closed
+	Closed      bool
+}
+
+func VerifNewQueue(dir string, maxSize int64, maxWrites int) (*VerifQueue, error) {
+	q, err := newQueue(dir, maxSize, maxWrites)
+	return &VerifQueue{q}, err
+}
+
+func (v *VerifQueue) Open() error                      { return v.q.Open() }
+func (v *VerifQueue) Close() error                     { return v.q.Close() }
+func (v *VerifQueue) Append(b []byte) error            { return v.q.Append(b) }
+func (v *VerifQueue) Current() ([]byte, error)         { return v.q.Current() }
+func (v *VerifQueue) Advance() error                   { return v.q.Advance() }
+func (v *VerifQueue) AdvanceSegment() error            { return v.q.advanceSegment() }
+func (v *VerifQueue) Truncate() error                  { return v.q.Truncate() }
+func (v *VerifQueue) Empty() bool                      { return v.q.Empty() }
+func (v *VerifQueue) SetMaxSegmentSize(n int64) error  { return v.q.SetMaxSegmentSize(n) }
+func (v *VerifQueue) PurgeOlderThan(t time.Time) error { return v.q.PurgeOlderThan(t) }
+func (v *VerifQueue) DiskUsage() int64                 { return v.q.diskUsage() }
+func (v *VerifQueue) MaxSegmentSize() int64            { return v.q.maxSegmentSize }
+func (v *VerifQueue) IsOpen() bool                     { return v.q.head != nil }
+
+// TakeTokens takes n tokens of the append limiter (as n concurrent appenders would).
+func (v *VerifQueue) TakeTokens(n int) int {
+	got := 0
+	for i := 0; i < n; i++ {
+		if v.q.limiter.TryTake() {
+			got++
+		}
+	}
+	return got
+}
+
+// ReleaseTokens gives n tokens back.
+func (v *VerifQueue) ReleaseTokens(n int) {
+	for i := 0; i < n; i++ {
+		v.q.limiter.Release()
+	}
+}
+
+// FlushTail is the deferred flush of queue.Append (taken when the last buffered appender leaves).
+func (v *VerifQueue) FlushTail() error {
+	v.q.mu.Lock()
+	defer v.q.mu.Unlock()
+	if v.q.tail == nil {
+		return ErrNotOpen
+	}
+	v.q.tail.mu.Lock()
+	defer v.q.tail.mu.Unlock()
+	return v.q.tail.flush()
+}
+
+// Abandon closes the OS file handles without going through segment.close, as a process
+// exit does (nothing buffered is written).
+func (v *VerifQueue) Abandon() {
+	for _, s := range v.q.segments {
+		if s.file != nil {
+			s.file.Close()
+		}
+	}
+}
+
+// Segments returns a snapshot of every segment, in queue order.
+func (v *VerifQueue) Segments() []VerifSegState {
+	var out []VerifSegState
+	for _, s := range v.q.segments {
+		st := VerifSegState{ID: s.id, Pos: s.pos, CurrentSize: s.currentSize, Size: s.size, MaxSize: s.maxSize, Cursor: -1}
+		if s.buf != nil {
+			st.BufLen = s.buf.Len()
+		}
+		if s.file != nil {
+			st.Cursor = s.filePos()
+		} else {
+			st.Closed = true
+		}
+		out = append(out, st)
+	}
+	return out
+}
+
+// HeadTail returns the ids of the head and tail segments (0, 0 when closed).
+func (v *VerifQueue) HeadTail() (uint64, uint64) {
+	if v.q.head == nil || v.q.tail == nil {
+		return 0, 0
+	}
+	return v.q.head.id, v.q.tail.id
+}
+
+func VerifMarshalWrite(shardID uint64, points []models.Point) []byte {
+	return marshalWrite(shardID, points)
+}
+func VerifUnmarshalWrite(b []byte) (uint64, [][]byte, error) { return unmarshalWrite(b) }
+
+// VerifQueueOf exposes the queue of an open NodeProcessor.
+func VerifQueueOf(n *NodeProcessor) *VerifQueue { return &VerifQueue{n.queue} }
